@@ -70,6 +70,18 @@ def oracle(case) -> Result:
     shapes = ng.infer_shapes(spec)
     group_of, frozen, members = ng.width_groups(spec, fixed)
     below = 0
+    ws = int(case['wseed'])
+    if ws % 2:
+        # the model was looked at before the optimizer moved its parameters
+        must(res, 'summary', pit.summary)
+        must(res, 'str', str, pit)
+
+    def write(param, values):
+        t = torch.tensor(values, dtype=torch.float32)
+        if (ws // 2) % 2:
+            param.data.copy_(t)       # no version-counter bump (the library's own idiom)
+        else:
+            param.copy_(t)
     with torch.no_grad():
         for nid, v in case['vals'].items():
             if nid not in layers:
@@ -77,12 +89,12 @@ def oracle(case) -> Result:
             layer = layers[nid]
             a = layer.out_features_masker.alpha
             if a.numel() == len(v['alpha']):
-                a.copy_(torch.tensor(v['alpha'], dtype=torch.float32))
+                write(a, v['alpha'])
                 if group_of[nid] not in frozen:
                     below += sum(1 for t in v['alpha'] if abs(t) <= 0.5)
             if 'beta' in v and hasattr(layer, 'timestep_masker'):
-                layer.timestep_masker.beta.copy_(torch.tensor(v['beta'], dtype=torch.float32))
-                layer.dilation_masker.gamma.copy_(torch.tensor(v['gamma'], dtype=torch.float32))
+                write(layer.timestep_masker.beta, v['beta'])
+                write(layer.dilation_masker.gamma, v['gamma'])
                 below += sum(1 for t in v['beta'] + v['gamma'] if abs(t) <= 0.5)
     summ = must(res, 'summary', pit.summary)
     if summ is None:
